@@ -10,3 +10,5 @@ Lemma src_encode_varint_eq : forall i, src_encode_varint i = of_option (encode_v
 Proof.
   intros i. unfold src_encode_varint, encode_varint. tie_auto.
 Qed.
+
+#[global] Hint Rewrite src_encode_varint_eq : tie.
